@@ -52,6 +52,20 @@ func c13ParseBlob(s string) []byte {
 	switch {
 	case s == "-":
 		return []byte{}
+	case strings.HasPrefix(s, "p"):
+		i := strings.IndexByte(s, ':')
+		n, err1 := strconv.Atoi(s[1:i])
+		seed, err2 := strconv.Atoi(s[i+1:])
+		if err1 != nil || err2 != nil {
+			panic("bad blob")
+		}
+		b := make([]byte, n)
+		x := uint64(seed)
+		for j := range b {
+			x = (x*1103515245 + 12345) % 2147483648
+			b[j] = byte(x / 65536)
+		}
+		return b
 	case strings.HasPrefix(s, "z"):
 		n, err := strconv.Atoi(s[1:])
 		if err != nil {
@@ -64,6 +78,14 @@ func c13ParseBlob(s string) []byte {
 		panic("bad blob hex")
 	}
 	return b
+}
+
+func c13Sum(b []byte) uint32 {
+	h := uint32(7)
+	for _, x := range b {
+		h = h*31 + uint32(x)
+	}
+	return h
 }
 
 func c13ParseBlobs(s string) [][]byte {
@@ -226,6 +248,29 @@ func init() {
 			}
 			out := cff.VerifIndexEncode(blobs)
 			return fmt.Sprintf("ok:%s;len=%d", hx(out[:len(out)-body]), len(out))
+		})
+	}
+	ops["cff.index.encsum"] = func(f Fields) string {
+		return c13Guard(func() string {
+			out := cff.VerifIndexEncode(c13ParseBlobs(f["blobs"]))
+			return fmt.Sprintf("ok:len=%d;sum=%d", len(out), c13Sum(out))
+		})
+	}
+	ops["cff.index.readsum"] = func(f Fields) string {
+		return c13Guard(func() string {
+			k := f.Int("pre")
+			enc := cff.VerifIndexEncode(c13ParseBlobs(f["blobs"]))
+			data := append(append(make([]byte, k), enc...), 1, 2, 3)
+			blobs, pos, err := cff.VerifReadIndex(data, int64(k))
+			if err != nil {
+				return c13Err(err)
+			}
+			var lens, all []byte
+			for _, b := range blobs {
+				lens = append(lens, byte(len(b)), byte(len(b)/256))
+				all = append(all, b...)
+			}
+			return fmt.Sprintf("ok:n=%d;lens=%d;sum=%d;pos=%d", len(blobs), c13Sum(lens), c13Sum(all), pos)
 		})
 	}
 	ops["cff.index.read"] = func(f Fields) string {
@@ -459,6 +504,18 @@ func c13GenIndex(c *Ctx, n int) {
 			res := c.Case(Verdict, "cff.index.read", fmt.Sprintf("data=%s pos=%d", hx(m), len(pre)), true)
 			c.Stat("index_read_mutated", c13OutcomeClass(res))
 		}
+	}
+	// offSize 3 and 4 with pseudo-random content: only a compact description travels, both sides
+	// expand it and compare length and checksum of the whole INDEX, and of what the reader returns
+	big := []string{"p65535:3,p7:4", "p65536:5", "p100000:6,-,p255:7", "p16777214:8", "p16777000:9,p215:10", "p9000000:11,p8000000:12"}
+	if c.Tier == "quick" {
+		big = []string{"p65535:3,p7:4", "p100000:6,-,p255:7", "p16777214:8", "p16777000:9,p215:10"}
+	}
+	for _, b := range big {
+		res := c.Case(Verdict, "cff.index.encsum", "blobs="+b, true)
+		c.Stat("index_big_enc", b+" => "+res)
+		res = c.Case(Verdict, "cff.index.readsum", "blobs="+b+" pre=5", true)
+		c.Stat("index_big_read", c13OutcomeClass(res))
 	}
 	// too many items: 65535 is accepted, 65536 panics
 	for _, k := range []int{65535, 65536} {
@@ -1452,6 +1509,9 @@ func c13RandString(r *Rng, lo, hi int) string {
 }
 
 func c13RandWidth(r *Rng) float64 {
+	if r.Chance(1, 25) { // the ends of the range: the nominal width must stay within reach of both
+		return Pick(r, []float64{-32767, 32767, 32766.5, -32766.25, 32000, -31000})
+	}
 	switch r.Intn(7) {
 	case 0:
 		return float64(r.Range(0, 1000))
@@ -1741,7 +1801,7 @@ func c13GenFonts(c *Ctx, n int) {
 			c.Stat("file_write", out)
 		}
 		// whole-file correspondence with the model of Write
-		if cs, dw, nw, err := cff.VerifEncodeCharStrings(f.build()); err == nil && !math.IsInf(nw, 0) {
+		if cs, dw, nw, err := cff.VerifEncodeCharStrings(f.build()); err == nil {
 			line := fmt.Sprintf("font=%s cs=%s dw=%d nw=%d", desc, c13ShowBlobs(cs), int32(dw), int32(nw))
 			if encKind != "" {
 				line += " enckind=" + encKind
@@ -1749,7 +1809,7 @@ func c13GenFonts(c *Ctx, n int) {
 			res := c.Case(Verdict, "cff.file.model", line, ng > 1)
 			c.Stat("file_model", c13OutcomeClass(res))
 		} else {
-			c.Stat("file_model", "skipped (all widths equal: nominal width is +Inf)")
+			c.Stat("file_model", "encodeCharStrings failed")
 		}
 	}
 }
@@ -1808,6 +1868,8 @@ func c13GenWidths(c *Ctx, n int) {
 				ws[j] = r.Range(-40000, 40000) * 65536 // beyond ±32767: never the default width
 			case 2:
 				ws[j] = r.Range(-1000, 1000)*65536 + 32768 // halves: rounding ties
+			case 3:
+				ws[j] = Pick(r, []int{-32767, 32767, -32766, 32766, 20000, -20000}) * 65536 // range of a charstring number
 			}
 			if ws[j]%65536 != 0 {
 				frac = true
